@@ -1194,8 +1194,8 @@ def gen_bad_step(rng, cur_c, emb_of, ml):
     object whose needed declarations are not in the repository, or truncated tomof() output.  Nothing is required
     of it except that the compiler is still usable afterwards: the later good steps are judged as usual."""
     import pywbem
-    k = rng.choice(['embedded_unknown_class', 'embedded_unknown_class', 'instance_unknown_class',
-                    'undeclared_qualifier', 'unknown_superclass', 'syntax_error'])
+    k = rng.choice(['embedded_unknown_class'] * 5 + ['instance_unknown_class', 'undeclared_qualifier',
+                                                     'unknown_superclass', 'syntax_error'])
     if k == 'embedded_unknown_class':
         cands = [c for c in cur_c.values() if not c.superclass and
                  any('EmbeddedInstance' in p.qualifiers or 'EmbeddedObject' in p.qualifiers
@@ -1244,17 +1244,32 @@ def gen_session(rng):
 def _gen_session(rng):
     cur_q, cur_c, emb_of = {}, {}, {}
     steps = []
-    if rng.random() < 0.6:
+    if rng.random() < 0.85:
         for qd in session_prelude():
             cur_q[qd.name] = norm_qualdecl(qd)
             steps.append({'kind': 'qualifierdecl', 'maxline': 80, 'obj': qd, 'redeclared': False})
-    nsteps = rng.randint(4, 10)
+    if 'EmbeddedInstance' in cur_q and rng.random() < 0.35:
+        # scripted opening: plain class, class with an embedded property (class name in another case), then an
+        # instance whose embedded value is of an unknown class (must be rejected) - the rest is random
+        a_cls = gen_class(rng, list(cur_q.values()), 'S_a')
+        cur_c['S_a'], emb_of['S_a'] = a_cls, None
+        steps.append({'kind': 'class', 'maxline': 80, 'obj': a_cls, 'redeclared': False})
+        for _ in range(20):
+            b_cls = gen_class(rng, list(cur_q.values()), 'S_b', refclasses=[recase(rng, 'S_a')],
+                              embed=recase(rng, 'S_a'))
+            if any('EmbeddedInstance' in p.qualifiers or 'EmbeddedObject' in p.qualifiers
+                   for p in b_cls.properties.values()):
+                break
+        cur_c['S_b'], emb_of['S_b'] = b_cls, 'S_a'
+        steps.append({'kind': 'class', 'maxline': 80, 'obj': b_cls, 'redeclared': False})
+        steps.append(gen_bad_step(rng, {'S_b': b_cls}, emb_of, 80))
+    nsteps = rng.randint(5, 12)
     for i in range(nsteps):
         r = rng.random()
         ml = rng.choice([60, 80, 80, 100, rng.randint(50, 120)])
-        if r < 0.12 and steps:
+        if r < 0.15 and steps:
             steps.append(gen_bad_step(rng, cur_c, emb_of, ml))
-        elif r < 0.42 or not [q for q in cur_q if q in SESSION_QNAMES]:
+        elif r < 0.40 or not [q for q in cur_q if q in SESSION_QNAMES]:
             name = rng.choice(SESSION_QNAMES)
             qd = gen_qualdecl(rng, name=name)
             # usable everywhere, so that the following classes can carry it
@@ -1262,12 +1277,12 @@ def _gen_session(rng):
             redecl = name in cur_q
             cur_q[name] = norm_qualdecl(qd)
             steps.append({'kind': 'qualifierdecl', 'maxline': ml, 'obj': qd, 'redeclared': redecl})
-        elif r < 0.78 or not cur_c:
+        elif r < 0.70 or not cur_c:
             name = rng.choice(SESSION_CNAMES)
             others = [c for c in cur_c if c != name]
             plain = [c for c in others if not cur_c[c].superclass]
             sup = recase(rng, rng.choice(others)) if others and rng.random() < 0.6 else None
-            emb = rng.choice(plain) if plain and rng.random() < 0.7 else None
+            emb = rng.choice(plain) if plain and rng.random() < 0.9 else None
             cls = gen_class(rng, list(cur_q.values()), name, superclass=sup,
                             refclasses=[recase(rng, o) for o in others],
                             embed=recase(rng, emb) if emb else None)
@@ -1404,28 +1419,52 @@ def stage3(run):
             if x['kind'] != 'bad':
                 run.count('session:%s%s' % (x['kind'], ':redeclared' if x.get('redeclared') else ''))
         if bad is not None:
-            # shrink: drop earlier steps as long as the last step still violates the property
+            # shrink by slicing: keep the rejected steps and every earlier step that declares a name the violating
+            # step depends on (transitively; all versions of re-declared names).  Steps are never dropped by
+            # trial and error: a session with a missing dependency fails on every tree and is no failing input.
             vio = [v for v in run.violations[n0:] if not is_known(v['sig'])]
             want = json.dumps(vio[0]['sig'], sort_keys=True)
-            last = steps[bad]
-
-            def still_fails(sub):
+            sl = slice_session(steps[:bad + 1])
+            if len(sl) < bad + 1:
                 rr = common.Run(PROP, 'quick', 0)
-                d, b = run_session(rr, list(sub) + [last])
-                return b == len(sub) and any(json.dumps(v['sig'], sort_keys=True) == want for v in rr.violations)
-            pre = steps[:bad]
-            if pre and still_fails([]):
-                pre = []
-            elif len(pre) >= 2:
-                pre = common.shrink_list(pre, still_fails, max_rounds=30)
-            rr = common.Run(PROP, 'quick', 0)
-            run_session(rr, pre + [last])
-            small = [v for v in rr.violations if json.dumps(v['sig'], sort_keys=True) == want]
-            if small:
-                # replace the recorded (long) cases of this session by the shrunk one
-                keep = [v for v in run.violations[n0:] if is_known(v['sig'])]
-                del run.violations[n0:]
-                run.violations.extend(keep + small)
+                d, b = run_session(rr, sl)
+                small = [v for v in rr.violations if json.dumps(v['sig'], sort_keys=True) == want]
+                if b == len(sl) - 1 and small:
+                    keep = [v for v in run.violations[n0:] if is_known(v['sig'])]
+                    del run.violations[n0:]
+                    run.violations.extend(keep + small)
+
+
+def deps_of(obj):
+    """lower-cased names of the declarations the MOF of obj refers to"""
+    import pywbem
+    if isinstance(obj, str):
+        return set()
+    out = set(n.lower() for n in names_of(obj) if n)
+    if isinstance(obj, pywbem.CIMClass):
+        for p in obj.properties.values():
+            q = p.qualifiers.get('EmbeddedInstance')
+            if q is not None and isinstance(q.value, str):
+                out.add(q.value.lower())
+    return out
+
+
+def slice_session(steps):
+    last = steps[-1]
+    needed = deps_of(last['obj'])
+    keep = [last]
+    for st in reversed(steps[:-1]):
+        obj = st['obj']
+        if st['kind'] == 'bad':
+            keep.append(st)
+            needed |= deps_of(obj)
+        elif st['kind'] == 'qualifierdecl' and obj.name.lower() in needed:
+            keep.append(st)
+        elif st['kind'] == 'class' and obj.classname.lower() in needed:
+            keep.append(st)
+            needed |= deps_of(obj)
+    keep.reverse()
+    return keep
 
 
 # =========================================================================== entry points
